@@ -226,7 +226,7 @@ C19Hits(env, lat) ==
 (***************************************************************************)
 (* I - transcription of create_lattice_elements / create_lattice.          *)
 (***************************************************************************)
-LineEqRaises == TRUE    \* line_eq computes (y1 - y0) / (x1 - x0): raises when the rounded x's are equal
+LineEqRaises == FALSE   \* line_eq computed (y1 - y0) / (x1 - x0) and raised when the rounded x's were equal; repaired by fix 8690795 (vertical ridges are interpolated)
 
 FirstIdx(s, x) == LET S == {i \in DOMAIN s : s[i] = x} IN
                   IF S = {} THEN 0 ELSE CHOOSE i \in S : \A j \in S : i <= j
